@@ -16,16 +16,19 @@ def close(a, b, rel=1e-11):
     return a.shape == b.shape and bool(np.all(np.abs(a - b) <= rel * np.maximum(np.abs(b), 1e-300)))
 
 
-def histogram(coll, form, dtype=np.float64):
+UNIT_EXP = -30         # a second load unit: every load (class limits, SD) times 2^-30 — C11 holds "scaled to any load level"
+
+
+def histogram(coll, form, dtype=np.float64, unit_exp=0):
     """The collective as a pyLife load histogram (range / from-to interval classes whose amplitude is exactly 2^x)."""
-    amp = [2.0 ** x for x, n in coll]
+    amp = [2.0 ** (x + unit_exp) for x, n in coll]
     cyc = np.asarray([n for x, n in coll], dtype=dtype)
     if form == 'range':
         idx = pd.IntervalIndex.from_arrays([2 * a - a / 4 for a in amp], [2 * a + a / 4 for a in amp], name='range')
         return pd.Series(cyc, index=idx, name='cycles')
     if form == 'range_mean':
         r = pd.IntervalIndex.from_arrays([2 * a - a / 4 for a in amp], [2 * a + a / 4 for a in amp])
-        m = pd.IntervalIndex.from_arrays([-1.0] * len(amp), [3.0] * len(amp))
+        m = pd.IntervalIndex.from_arrays([-1.0 * 2.0 ** unit_exp] * len(amp), [3.0 * 2.0 ** unit_exp] * len(amp))
         return pd.Series(cyc, index=pd.MultiIndex.from_arrays([r, m], names=['range', 'mean']), name='cycles')
     # from/to: from-class mid = -a, to-class mid = +a
     f = pd.IntervalIndex.from_arrays([-a - a / 8 for a in amp], [-a + a / 8 for a in amp])
@@ -63,6 +66,12 @@ def check_state(st, fs):
                         viol.append(('damage sum under Miner %s differs from sum n_i / N_i' % rule, {**case, 'form': fname}, want_total, float(d.sum())))
                     if rule == 'elementary' and not close(d.to_numpy(), [v / 2.0 ** SCALE for v in out['per_class_elem']]):
                         viol.append(('per-class damage differs (additivity over members)', {**case, 'form': fname}, [v / 2.0 ** SCALE for v in out['per_class_elem']], d.tolist()))
+                # the same curve and collective expressed in another load unit: damage is a pure number
+                ucurve = getattr(pd.Series({'k_1': float(c['k1']), 'SD': 2.0 ** (c['a'] + UNIT_EXP), 'ND': 2.0 ** c['b']}).woehler, meth)().to_pandas()
+                for fname in ('range', 'from_to'):
+                    du = ucurve.fatigue.damage(histogram(coll, fname, unit_exp=UNIT_EXP).load_collective)
+                    if not close(du.sum(), want_total):
+                        viol.append(('damage sum under Miner %s changes when all loads are expressed in another unit (factor 2^%d)' % (rule, UNIT_EXP), {**case, 'form': fname}, want_total, float(du.sum())))
                 # order independence on the real code (reversed class order)
                 rev = histogram(coll[::-1], 'range').load_collective
                 if not close(curve.fatigue.damage(rev).sum(), want_total):
@@ -96,6 +105,20 @@ def check_state(st, fs):
                             viol.append(('applying the collective for the Gassner cycles of Miner %s gives damage %.6g, not 1' % (rule, dmg), {**case, 'form': fname}, 1.0, dmg))
                     if fname == 'history':
                         continue
+                    if fname == 'range':
+                        # (a) loads in another unit, (b) the rule object built from a curve RECORD carrying another k_2 (the rule fixes its own slope below SD)
+                        ucurve = curve.copy()
+                        ucurve['SD'] = 2.0 ** (c['a'] + UNIT_EXP)
+                        ulc = histogram(coll, 'range', unit_exp=UNIT_EXP).load_collective
+                        alts = [('loads in another unit (factor 2^%d)' % UNIT_EXP, float(getattr(ucurve, acc).gassner_cycles(ulc)) * float(ucurve.fatigue.damage(ulc).sum()) / total)]
+                        # (only where the largest occupied amplitude is not below SD: below it N(S_max) itself is read from the record's k_2 branch)
+                        for k2 in ((float(c['k1']), 22.0, np.inf) if out['maxocc'] >= c['a'] else ()):
+                            rec = curve.copy()
+                            rec['k_2'] = k2
+                            alts.append(('rule object built from a curve record with k_2 = %s' % k2, float(getattr(rec, acc).gassner_cycles(lc)) * per_cycle))
+                        for label, dalt in alts:
+                            if not close(dalt, dmg, 1e-10):
+                                viol.append(('Gassner damage of Miner %s changes with %s' % (rule, label), {**case, 'form': fname}, dmg, dalt))
                     A = float(getattr(curve, acc).lifetime_multiple(lc))
                     dm = float(getattr(curve, acc).effective_damage_sum(lc))
                     if not (0.3 <= dm <= 1.0 and close(dm, min(max(0.3, 2.0 / A ** 0.25), 1.0), 1e-12)):
@@ -108,6 +131,25 @@ def check_state(st, fs):
         except Exception as ex:
             viol.append(('raised %r' % ex, case, None, None))
     return viol, known
+
+
+def check_degenerate(chk):
+    """Collectives with nothing counted / only a zero-amplitude class: the effective damage sum still lies in [0.3, 1]."""
+    import pylife.strength.fatigue, pylife.strength.miner, pylife.stress.collective  # noqa
+    with warnings.catch_warnings():
+        warnings.simplefilter('ignore')
+        for k1 in (3.0, 5.0):
+            base = pd.Series({'k_1': k1, 'SD': 16.0, 'ND': 2.0 ** 20})
+            for name, coll in (('nothing counted', [(2, 0), (3, 0), (5, 0)]), ('only the lowest class occupied', [(2, 4), (3, 0), (5, 0)])):
+                for rule, acc in (('elementary', 'gassner_miner_elementary'), ('haibach', 'gassner_miner_haibach')):
+                    chk.evals(1)
+                    curve = getattr(base.woehler, RULES[rule])().to_pandas()
+                    try:
+                        dm = float(getattr(curve, acc).effective_damage_sum(histogram(coll, 'range').load_collective))
+                        if not 0.3 <= dm <= 1.0:
+                            chk.violation('effective damage sum outside [0.3, 1] for a degenerate collective (%s)' % name, {'k_1': k1, 'rule': rule, 'classes_exponent_cycles': coll}, '[0.3, 1]', dm, part='degenerate')
+                    except Exception as ex:
+                        chk.violation('effective_damage_sum raised %r for a degenerate collective (%s)' % (ex, name), {'k_1': k1, 'rule': rule}, part='degenerate')
 
 
 def _replay(args):
@@ -152,9 +194,10 @@ def run(chk):
         chk.evals(tot)
         chk.cov['traces_validated_against_impl'] += tot
         os.remove(res.dump_path)
+    check_degenerate(chk)
     chk.cov['rule'] = ('TLC enumerates curves (k_1 in {2,3}, SD=2^4, ND=2^20) x collectives of 3-4 classes with amplitudes 2^x around SD (4 load levels) and counts incl. 0 '
                        '(empty classes at the top, bottom, in between) and proves linearity and the Gassner identity on exact integers; every state is evaluated through '
-                       'fatigue.damage, gassner_miner_elementary/_haibach, solidity for 4 collective layouts (range, range/mean, from/to histograms, from/to/cycles frame). '
+                       'fatigue.damage, gassner_miner_elementary/_haibach, solidity for 4 collective layouts (range, range/mean, from/to histograms, from/to/cycles frame), also with all loads in a second unit (2^-30) and with rule objects built from curve records carrying a foreign k_2; degenerate collectives (nothing counted) for the effective damage sum. '
                        'Non-trivial = at least one empty class and two occupied ones.')
     chk.cov['exhaustive'] = True
     chk.assumptions += ['power-of-two amplitudes and curve parameters (exact in float64); comparisons at rel 1e-11']
